@@ -174,6 +174,23 @@ def _arr_sort(dom_sorts, rng):
     return s
 
 
+def forall_pat(vs, body, pat=None):
+    """ForAll with an explicit trigger when the term is a valid pattern (contains the bound variables, is an
+    application); otherwise z3's own trigger inference."""
+    def has_ite(t, depth=0):
+        if depth > 12:
+            return True
+        if z3.is_app_of(t, z3.Z3_OP_ITE):
+            return True
+        return any(has_ite(c, depth + 1) for c in t.children())
+    if pat is not None and not z3.is_var(pat) and z3.is_app(pat) and pat.num_args() > 0 and not has_ite(pat):
+        try:
+            return z3.ForAll(vs, body, patterns=[pat])
+        except z3.Z3Exception:
+            pass
+    return z3.ForAll(vs, body)
+
+
 class HeapOps:
     """All reads/writes of the symbolic heap. Arrays are created lazily; the initial
     version of key k is the constant H0!k (so old() can refer to it)."""
@@ -983,13 +1000,13 @@ class Exec:
             ak = T.coerce(self.h.list_get(st, a.ty, a.t, k), lty.t)
             bk = T.coerce(self.h.list_get(st, b.ty, b.t, k), lty.t)
             # stated in both directions so that either side's element term triggers the instance
-            st.pc.append(z3.ForAll([k], z3.Implies(z3.And(k >= 0, k < na), self.equal(got, ak)), patterns=[got.terms[-1]]))
-            st.pc.append(z3.ForAll([k], z3.Implies(z3.And(k >= 0, k < na), self.equal(got, ak)), patterns=[ak.terms[-1]]))
-            st.pc.append(z3.ForAll([k], z3.Implies(z3.And(k >= na, k < na + nb),
-                                                   self.equal(got, T.coerce(self.h.list_get(st, b.ty, b.t, k - na), lty.t))),
-                                   patterns=[got.terms[-1]]))
-            st.pc.append(z3.ForAll([k], z3.Implies(z3.And(k >= 0, k < nb),
-                                                   self.equal(self.h.list_get(st, lty, r, k + na), bk)), patterns=[bk.terms[-1]]))
+            st.pc.append(forall_pat([k], z3.Implies(z3.And(k >= 0, k < na), self.equal(got, ak)), got.terms[-1]))
+            st.pc.append(forall_pat([k], z3.Implies(z3.And(k >= 0, k < na), self.equal(got, ak)), ak.terms[-1]))
+            st.pc.append(forall_pat([k], z3.Implies(z3.And(k >= na, k < na + nb),
+                                                    self.equal(got, T.coerce(self.h.list_get(st, b.ty, b.t, k - na), lty.t))),
+                                    got.terms[-1]))
+            st.pc.append(forall_pat([k], z3.Implies(z3.And(k >= 0, k < nb),
+                                                    self.equal(self.h.list_get(st, lty, r, k + na), bk)), bk.terms[-1]))
             return V(lty, [r])
         x, y = self.num(a), self.num(b)
         both_int = z3.is_int(x) and z3.is_int(y)
@@ -1229,8 +1246,8 @@ class Exec:
         st.pc.append(n_res <= n_src)
         body_k = z3.Implies(z3.And(k >= 0, k < n_res),
                             z3.And(f(k) >= 0, f(k) < n_src, cond_k, self.equal(got, T.coerce(elt, lty.t))))
-        st.pc.append(z3.ForAll([k], body_k, patterns=[got.terms[-1]]))
-        st.pc.append(z3.ForAll([k], body_k, patterns=[f(k)]))
+        st.pc.append(forall_pat([k], body_k, got.terms[-1]))
+        st.pc.append(forall_pat([k], body_k, f(k)))
         k2 = z3.Int(T.fresh_name("ck2"))
         st.pc.append(z3.ForAll([k, k2], z3.Implies(z3.And(0 <= k, k < k2, k2 < n_res), f(k) < f(k2))))
         # completeness: every qualifying source index is selected
